@@ -250,6 +250,28 @@ func (c *Client) SendBytes(b []byte, stream int, op, tok, class string) error {
 	return err
 }
 
+// SendMany encodes the frames and hands them to the socket in ONE write (the peer's reader finds them back to back);
+// one ClientSend event per frame is logged before the write.
+func (c *Client) SendMany(frms []*frame.Frame, toks, classes []string) error {
+	var all bytes.Buffer
+	c.mu.Lock()
+	codec := c.codec
+	c.mu.Unlock()
+	for _, frm := range frms {
+		if err := codec.EncodeFrame(frm, &all); err != nil {
+			return err
+		}
+	}
+	c.wmu.Lock()
+	defer c.wmu.Unlock()
+	for i, frm := range frms {
+		c.emit("ClientSend", "c", c.ID, "caddr", c.LocalAddr, "stream", int(frm.Header.StreamId), "op", frm.Header.OpCode.String(), "t", toks[i],
+			"class", classes[i], "sess", c.sessTag())
+	}
+	_, err := c.nc.Write(all.Bytes())
+	return err
+}
+
 // Encode returns the wire bytes of frm under the client's codec.
 func (c *Client) Encode(frm *frame.Frame) ([]byte, error) {
 	var buf bytes.Buffer
